@@ -421,3 +421,13 @@ Proof.
     + symmetry. destruct D as [D|D]; apply N.eqb_eq in D; rewrite D; cbn;
         [reflexivity | apply andb_false_r].
 Qed.
+
+(** sequences of requests: the model is stateless, so the oracle holds step by step *)
+Lemma seq_ok_model l s (reqs : list (endpoint * peer_addr * auth * request)) :
+  forallb (fun st : endpoint * peer_addr * auth * request * option call =>
+             let '(ep, p, a, q, impl) := st in serve_ok ep l s p a q impl)
+          (map (fun r => let '(ep, p, a, q) := r in (ep, p, a, q, serve ep l s p a q)) reqs) = true.
+Proof.
+  induction reqs as [|[[[ep p] a] q] t IH]; [reflexivity|].
+  cbn [map forallb]. rewrite serve_ok_model. exact IH.
+Qed.
